@@ -419,7 +419,7 @@ func TestVerifC19ReservationReplay(t *testing.T) {
 		defer c.End()
 		w := c19NewWorld(t)
 		// independent informers: in some cases the restarted scheduler gets pod events before Reservation events
-		anyOrderCase := rapid.IntRange(0, 6).Draw(t, "podEventsMayPrecedeReservations") == 0
+		anyOrderCase := rapid.IntRange(0, 9).Draw(t, "podEventsMayPrecedeReservations") == 0
 
 		persisted := map[types.UID]c19Obj{}
 		assigned := map[types.UID]types.UID{} // model: active pod -> the active reservation Reserve assigned it to
@@ -427,7 +427,7 @@ func TestVerifC19ReservationReplay(t *testing.T) {
 		next := 0
 		var hist []string
 		dead := false
-		sawMulti, sawDup, sawTerminated, sawSelfEvent, sawAnyOrder, sawDeadResv, sawOnce, sawRestricted, sawIndexDiff := false, false, false, false, false, false, false, false, false
+		sawMulti, sawDup, sawPodFinished, sawSelfEvent, sawAnyOrder, sawDeadResv, sawOnce, sawRestricted, sawIndexDiff := false, false, false, false, false, false, false, false, false
 		maxAssigned, checks := 0, 0
 
 		sorted := func(pred func(types.UID, c19Obj) bool) []types.UID {
@@ -713,23 +713,29 @@ func TestVerifC19ReservationReplay(t *testing.T) {
 				delete(assigned, u)
 				hist = append(hist, fmt.Sprintf("delete %s", u))
 			},
-			"terminatePod": func(t *rapid.T) {
+			// A pod that finishes (phase Succeeded/Failed) leaves the scheduler's pod informer, which carries the field
+			// selector status.phase!=Succeeded,status.phase!=Failed (scheduler.NewInformerFactory): the handler gets a
+			// DELETE and a restarted scheduler never sees the object.
+			"finishPod": func(t *rapid.T) {
 				if dead {
 					return
 				}
-				uids := sorted(func(u types.UID, o c19Obj) bool { return o.Pod != nil && !c19IsTerminated(o.Pod) })
+				uids := sorted(func(u types.UID, o c19Obj) bool { return o.Pod != nil })
 				if len(uids) == 0 {
 					t.Skip("no running pod")
 				}
 				u := rapid.SampledFrom(uids).Draw(t, "uid")
-				old := persisted[u]
-				n := old.copy()
-				n.Pod.Status.Phase = rapid.SampledFrom([]corev1.PodPhase{corev1.PodSucceeded, corev1.PodFailed}).Draw(t, "phase")
-				w.ph.OnUpdate(old.Pod.DeepCopy(), n.Pod.DeepCopy())
-				persisted[u] = n
+				phase := rapid.SampledFrom([]corev1.PodPhase{corev1.PodSucceeded, corev1.PodFailed}).Draw(t, "phase")
+				tomb := rapid.IntRange(0, 3).Draw(t, "tombstone") == 0
+				if tomb {
+					w.ph.OnDelete(cache.DeletedFinalStateUnknown{Key: "k", Obj: persisted[u].Pod.DeepCopy()})
+				} else {
+					w.ph.OnDelete(persisted[u].Pod.DeepCopy())
+				}
+				delete(persisted, u)
 				delete(assigned, u)
-				sawTerminated = true
-				hist = append(hist, fmt.Sprintf("terminate %s (%s)", u, n.Pod.Status.Phase))
+				sawPodFinished = true
+				hist = append(hist, fmt.Sprintf("finish pod %s (%s): delivered as delete (tombstone=%v), object leaves the informer", u, phase, tomb))
 			},
 			"endReservation": func(t *rapid.T) { // consumed / expired / deleted: the plugin handler, then the scheduler-level handler drops it
 				if dead {
@@ -793,7 +799,7 @@ func TestVerifC19ReservationReplay(t *testing.T) {
 		})
 		c.ClassIf(sawMulti, "reservation-with>=2-assigned-pods")
 		c.ClassIf(sawDup, "duplicate-or-noop-event")
-		c.ClassIf(sawTerminated, "terminated-pod-persisted")
+		c.ClassIf(sawPodFinished, "pod-finished(delivered-as-delete)")
 		c.ClassIf(sawSelfEvent, "live-saw-own-bind-event")
 		c.ClassIf(sawAnyOrder, "pod-event-before-reservation")
 		c.ClassIf(sawDeadResv, "reservation-ended-with-history")
@@ -807,8 +813,4 @@ func TestVerifC19ReservationReplay(t *testing.T) {
 		}
 		c.Sample(map[string]any{"history": hist, "crashPointsChecked": checks, "persistedAtEnd": c19Persisted(persisted)})
 	})
-}
-
-func c19IsTerminated(p *corev1.Pod) bool {
-	return p.Status.Phase == corev1.PodSucceeded || p.Status.Phase == corev1.PodFailed
 }
